@@ -599,7 +599,28 @@ def _ite_atoms(t, acc):
 
 def _resolve(t, val):
     """Replace every ite whose condition is decided by val; re-normalise."""
-    sub = {c: T.C(v) for c, v in val.items()}
+    # only conditions are decided: an occurrence of the condition's term in a value position (`if size: .. 1 << size`) is kept
+    def bs(c):
+        if c in val:
+            return T.C(val[c])
+        if c[0] in ('and', 'or'):
+            return T.mk_bool(c[0], [bs(x) for x in c[1]])
+        if c[0] == 'not':
+            return T.mk_not(bs(c[1]))
+        return c
+    sub = {}
+    for x in T.walk(t):
+        if x[0] == 'ite' and len(x) == 4 and x not in sub and bs(x[1]) != x[1]:
+            sub[x] = None
+    if not sub:
+        return t
+    for x in list(sub):
+        c = bs(x[1])
+        tv = T.truth(c) if T.is_c(c) else None
+        if tv is not None:
+            sub[x] = _resolve(x[2] if tv else x[3], val)
+        else:
+            sub[x] = T.mk_ite(c, _resolve(x[2], val), _resolve(x[3], val))
     return T.substitute(t, sub)
 
 
